@@ -22,6 +22,7 @@ EXPLANATION = (
   "against font size / height) and the em reference is the font size; (DSP-units) _compute_length converts every non-root unit."
   " (FIN-ruby) the guard under which an inherited font size is halved equals, for every (element kind, parent kind) pair the content model allows, `rtc, or rt outside an rtc`;"
   " (STATE-alias / STATE-global) no function of the anchored modules mutates a module- or class-level container, rebinds module / class state or mutates a mutable default argument, so a result never depends on earlier calls;"
+  " (MEMO-key) caches in isd.py are not keyed by dataclass values (two equal animation steps of different elements would share an entry);"
 )
 RULE_TEXT = "per ordering pair, guard, property x {inherited, initial, applies-to}, _compute_length call site, unit"
 UNDECIDED = ["numeric values (em-of-%-of-c chains, position edge arithmetic, ruby half size)", "tts:disparity applicability (not established from the specification)"]
